@@ -13,6 +13,11 @@ import (
 
 const (
 	bufferSize = 512 // frames cannot go beyond len(header) + 255 + len(check) + len(sig)
+
+	// with datagram-based transports (UDP), the part of a datagram that
+	// does not fit into the buffer passed to Read() is discarded,
+	// therefore the read buffer must be able to contain the largest datagram.
+	readBufferSize = 65536
 )
 
 // 1st January 2015 GMT
@@ -90,7 +95,7 @@ type Reader struct {
 // Initialize initializes a Reader.
 func (r *Reader) Initialize() error {
 	if r.ByteReader != nil {
-		r.BufByteReader = bufio.NewReaderSize(r.ByteReader, bufferSize)
+		r.BufByteReader = bufio.NewReaderSize(r.ByteReader, readBufferSize)
 	}
 
 	if r.BufByteReader == nil {
